@@ -862,7 +862,12 @@ var customContexts = []string{
 
 var customInputs = []string{`null`, `1`, `"s"`, `[1,[2]]`, `{"a":1,"b":[3]}`, `[[0,1],2]`}
 
-func genCall(r *Rng, prefix string, depth int) (native string, def string) {
+var zcount int
+
+// genCall returns the same call three ways: with the Go function (native), with the Go function but every
+// argument bound to a variable first (`aK as $zK | … | a1 as $z1 | f($z1; …; $zK)`: the arguments are
+// evaluated as values, the last in the outermost loop, outside path tracking), and with the jq definition.
+func genCall(r *Rng, depth int) (native, prebound, def string) {
 	name := customNames[r.Intn(len(customNames))]
 	if r.Chance(1, 25) {
 		name = "big"
@@ -875,21 +880,31 @@ func genCall(r *Rng, prefix string, depth int) (native string, def string) {
 		k = ar[r.Intn(len(ar))]
 	}
 	if k == 0 {
-		return name, "d_" + name
+		return name, name, "d_" + name
 	}
-	na, da := make([]string, k), make([]string, k)
+	na, pa, da := make([]string, k), make([]string, k), make([]string, k)
 	for i := 0; i < k; i++ {
 		if depth > 0 && r.Chance(1, 6) {
-			na[i], da[i] = genCall(r, prefix, depth-1)
+			na[i], pa[i], da[i] = genCall(r, depth-1)
 		} else {
 			a := customArgs[r.Intn(len(customArgs))]
 			if name == "big" && r.Chance(3, 4) {
 				a = strconv.Itoa(i)
 			}
-			na[i], da[i] = a, a
+			na[i], pa[i], da[i] = a, a, a
 		}
 	}
-	return name + "(" + strings.Join(na, "; ") + ")", "d_" + name + "(" + strings.Join(da, "; ") + ")"
+	zs := make([]string, k)
+	pre := ""
+	for i := 0; i < k; i++ {
+		zcount++
+		zs[i] = "$z" + strconv.Itoa(zcount)
+	}
+	for i := k - 1; i >= 0; i-- {
+		pre += pa[i] + " as " + zs[i] + " | "
+	}
+	return name + "(" + strings.Join(na, "; ") + ")", "(" + pre + name + "(" + strings.Join(zs, "; ") + "))",
+		"d_" + name + "(" + strings.Join(da, "; ") + ")"
 }
 
 func runCustomProgram(src string, opts []gojq.CompilerOption, input string) string {
@@ -926,15 +941,30 @@ func runCustomProgram(src string, opts []gojq.CompilerOption, input string) stri
 	return strings.Join(parts, " ; ")
 }
 
+// The canonical reproducer of the family "arguments of a native are evaluated in path-tracking mode":
+const pathArgCase = "custom: `path(nsnd(null; .[1]))` on input [1,[2]] gives %q with Go functions (WithFunction) but %q with the equivalent jq definition `def d_nsnd(a; b): b as $b | a as $a | $b; path(d_nsnd(null; .[1]))`"
+
 func runCustom(c *Ctx, n int) {
 	opts := append(customOptions(), gojq.WithVariables([]string{"$v"}))
 	dopts := []gojq.CompilerOption{gojq.WithVariables([]string{"$v"})}
 	defs := customDefs()
 	r := c.Rng
-	diffs := 0
-	try := func(ctxt, fn, fd, gn, gd string) {
-		np := strings.ReplaceAll(strings.ReplaceAll(ctxt, "F", fn), "G", gn)
-		dp := defs + strings.ReplaceAll(strings.ReplaceAll(ctxt, "F", fd), "G", gd)
+	diffs, family := 0, 0
+	subst := func(ctxt, f, g string) string {
+		return strings.ReplaceAll(strings.ReplaceAll(ctxt, "F", f), "G", g)
+	}
+	// fixed reproducer first: one canonical case for the whole family
+	{
+		a := runCustomProgram("path(nsnd(null; .[1]))", opts, "[1,[2]]")
+		b := runCustomProgram(defs+"path(d_nsnd(null; .[1]))", dopts, "[1,[2]]")
+		if a != b {
+			c.Violation(pathArgCase, a, b)
+		}
+	}
+	try := func(ctxt string, f, g [3]string) {
+		np := subst(ctxt, f[0], g[0])
+		pp := subst(ctxt, f[1], g[1])
+		dp := defs + subst(ctxt, f[2], g[2])
 		for _, in := range customInputs {
 			a := runCustomProgram(np, opts, in)
 			b := runCustomProgram(dp, dopts, in)
@@ -942,24 +972,33 @@ func runCustom(c *Ctx, n int) {
 			b = strings.ReplaceAll(b, "d_", "")
 			c.Nlines++
 			c.Count("custom")
-			if a != b {
-				diffs++
-				if diffs <= 5 {
-					c.Violation("custom: `%s` on input %s gives %q with Go functions (WithFunction/WithIterFunction) but %q with the equivalent jq definitions `%s`",
-						np, in, a, b, strings.ReplaceAll(strings.ReplaceAll(ctxt, "F", fd), "G", gd))
-				}
+			if a == b {
+				continue
+			}
+			// Is the difference explained by the arguments having been evaluated in path-tracking mode?
+			// (then binding them to variables first makes the Go function agree with the definition)
+			if p := runCustomProgram(pp, opts, in); p == b {
+				family++
+				continue
+			}
+			diffs++
+			if diffs <= 5 {
+				c.Violation("custom: `%s` on input %s gives %q with Go functions (WithFunction/WithIterFunction) but %q with the equivalent jq definitions `%s`",
+					np, in, a, b, subst(ctxt, f[2], g[2]))
 			}
 		}
 	}
-	// every context with every function at least once
+	gen := func(d int) [3]string {
+		a, b, cc := genCall(r, d)
+		return [3]string{a, b, cc}
+	}
+	// every context at least twice
 	for _, ctxt := range customContexts {
 		if !strings.Contains(ctxt, "F") {
 			continue
 		}
 		for i := 0; i < 2; i++ {
-			fn, fd := genCall(r, "", 1)
-			gn, gd := genCall(r, "", 0)
-			try(ctxt, fn, fd, gn, gd)
+			try(ctxt, gen(1), gen(0))
 		}
 	}
 	for i := 0; i < n; i++ {
@@ -967,10 +1006,10 @@ func runCustom(c *Ctx, n int) {
 		if r.Chance(1, 4) { // nest two contexts
 			ctxt = strings.ReplaceAll(customContexts[r.Intn(len(customContexts))], "F", "("+ctxt+")")
 		}
-		fn, fd := genCall(r, "", 2)
-		gn, gd := genCall(r, "", 1)
-		try(ctxt, fn, fd, gn, gd)
+		try(ctxt, gen(2), gen(1))
 	}
+	c.Stats["custom_differences"] = diffs
+	c.Stats["custom_differences_explained_by_path_tracked_arguments"] = family
 	// unregistered arities are "function not defined", exactly like a missing def
 	for name, ar := range customArity {
 		has := map[int]bool{}
@@ -990,7 +1029,6 @@ func runCustom(c *Ctx, n int) {
 			}
 		}
 	}
-	c.Stats["custom_differences"] = diffs
 }
 
 func runImpl(c *Ctx) {
